@@ -1,4 +1,5 @@
 import MirProofs.Lemmas.HierarchySelf
+import MirProofs.Lemmas.HierarchyTriple
 /-!
   C02 — hierarchy: an annotation scored against itself.
 
@@ -76,5 +77,97 @@ example :
   rcases hlv with rfl | rfl
   · exact ⟨by simp, by simp only [Chain]; norm_num⟩
   · exact ⟨by simp, by simp only [Chain]; norm_num⟩
+
+/-! ### the non-degeneracy hypothesis stated on inputs
+
+  `HasTriple depth tr n w` (`Lemmas/HierarchyTriple.lean`): some query frame `q < n` has two result frames `i`, `j`
+  in its window (`InWindow n w q ·`: `max(0, q−w) ≤ · < min(n, q+w)`, `· ≠ q`) with `depth q i < depth q j`
+  (full measure) resp. `depth q i + 1 = depth q j` (reduced measure).  `depth` is the Layer-S depth of two frames:
+  `lcaSpec` — the deepest level at which they lie in one segment — or `meetSpec` — the deepest level at which they
+  carry the same (case-folded) label; both are defined on the annotation, not on a matrix. -/
+
+/-- **`hasRefTriple`, unfolded** for ANY matrix: some row `q` has two result frames in its window whose entries in
+    that row are related. -/
+theorem hasRefTriple_iff_entries (m : Mat) (tr : Bool) (w : Nat) :
+    hasRefTriple m tr w = true ↔
+      ∃ q i j a b, InWindow m.length w q i ∧ InWindow m.length w q j ∧
+        entry m q i = some a ∧ entry m q j = some b ∧ rel tr a b = true :=
+  hasRefTriple_iff m tr w
+
+/-- **T-measure self-score, characterised on the input.**  For every valid hierarchical segmentation, accepted
+    `frame_size` / `window` and both `transitive` settings: `tmeasure(h, h)` is `(1, 1, 1)` if and only if some
+    query frame has two other frames in its window whose LCA depths with it are related (differ, resp. differ by
+    exactly one level), and `(0, 0, 0)` if and only if there is no such frame — nothing else is possible. -/
+theorem tmeasure_self_iff (h : Hier) (T : Rat) (transitive : Bool) (window : Option Rat) (fs beta : Rat)
+    (hv : ValidHier h T) (h0 : 0 < fs) (hw : ∀ w, window = some w → fs ≤ w) :
+    (tmeasure h h transitive window fs beta = .ok (1, 1, 1) ↔
+      HasTriple (lcaSpec h fs (framesOf T fs)) transitive (framesOf T fs) (windowOf window fs (framesOf T fs))) ∧
+    (tmeasure h h transitive window fs beta = .ok (0, 0, 0) ↔
+      ¬ HasTriple (lcaSpec h fs (framesOf T fs)) transitive (framesOf T fs) (windowOf window fs (framesOf T fs))) :=
+  self_cases (tmeasure_self_hasTriple h T transitive window fs beta hv h0 hw)
+
+/-- **L-measure self-score, characterised on the input** (labels no longer than their intervals): `(1, 1, 1)` iff
+    some query frame has two other frames whose meet depths with it (deepest level with a common label) differ,
+    `(0, 0, 0)` iff there is none. -/
+theorem lmeasure_self_iff (h : Hier) (ls : List (List String)) (T fs beta : Rat)
+    (hv : ValidHier h T) (h0 : 0 < fs) (hfit : ∀ x ∈ h.zip ls, x.2.length ≤ x.1.length) :
+    (lmeasure h ls h ls fs beta = .ok (1, 1, 1) ↔
+      HasTriple (meetSpec h ls fs (framesOf T fs)) true (framesOf T fs) (framesOf T fs)) ∧
+    (lmeasure h ls h ls fs beta = .ok (0, 0, 0) ↔
+      ¬ HasTriple (meetSpec h ls fs (framesOf T fs)) true (framesOf T fs) (framesOf T fs)) :=
+  self_cases (lmeasure_self_hasTriple h ls T fs beta hv h0 hfit)
+
+/-- for the full measures "related" is simply "different": some query frame sees two frames at different depths -/
+theorem hasTriple_full_iff_depths_differ (depth : Nat → Nat → Nat) (n w : Nat) :
+    HasTriple depth true n w ↔
+      ∃ q i j, q < n ∧ InWindow n w q i ∧ InWindow n w q j ∧ depth q i ≠ depth q j :=
+  hasTriple_transitive_iff depth n w
+
+/-- **a sufficient condition on segments** (full T-measure): if at some level `k` (1-based) frame `q` shares a
+    segment with frame `j`, and at level `k` and every deeper level it shares no segment with frame `i` (`i`, `j`
+    in the window of `q`), the annotation is non-degenerate and scores `(1, 1, 1)` against itself.  (E.g. the
+    deepest level has a segment spanning two frames and a second segment.) -/
+theorem tmeasure_self_of_split (h : Hier) (T : Rat) (window : Option Rat) (fs beta : Rat)
+    (hv : ValidHier h T) (h0 : 0 < fs) (hw : ∀ w, window = some w → fs ≤ w) (q i j k : Nat)
+    (hq : q < framesOf T fs)
+    (hi : InWindow (framesOf T fs) (windowOf window fs (framesOf T fs)) q i)
+    (hj : InWindow (framesOf T fs) (windowOf window fs (framesOf T fs)) q j) (hk : 0 < k)
+    (hshare : ∃ lv, (lv, k) ∈ h.zipIdx 1 ∧ levelCovers fs (framesOf T fs) lv q j = true)
+    (hsplit : ∀ x ∈ h.zipIdx 1, k ≤ x.2 → levelCovers fs (framesOf T fs) x.1 q i = false) :
+    tmeasure h h true window fs beta = .ok (1, 1, 1) :=
+  (tmeasure_self_iff h T true window fs beta hv h0 hw).1.2
+    (hasTriple_lca_of_levels h fs _ _ q i j k hq hi hj hk hshare hsplit)
+
+/-- **a sufficient condition on labels** (L-measure): at some level `k` frames `q` and `j` carry the same label,
+    and at level `k` and every deeper level `q` and `i` carry different labels. -/
+theorem lmeasure_self_of_split (h : Hier) (ls : List (List String)) (T fs beta : Rat)
+    (hv : ValidHier h T) (h0 : 0 < fs) (hfit : ∀ x ∈ h.zip ls, x.2.length ≤ x.1.length) (q i j k : Nat)
+    (hq : q < framesOf T fs)
+    (hi : InWindow (framesOf T fs) (framesOf T fs) q i) (hj : InWindow (framesOf T fs) (framesOf T fs) q j)
+    (hk : 0 < k)
+    (hshare : ∃ lv, (lv, k) ∈ (h.zip ls).zipIdx 1 ∧ levelAgrees fs (framesOf T fs) lv q j = true)
+    (hsplit : ∀ x ∈ (h.zip ls).zipIdx 1, k ≤ x.2 → levelAgrees fs (framesOf T fs) x.1 q i = false) :
+    lmeasure h ls h ls fs beta = .ok (1, 1, 1) :=
+  (lmeasure_self_iff h ls T fs beta hv h0 hfit).1.2
+    (hasTriple_meet_of_levels h ls fs _ _ q i j k hq hi hj hk hshare hsplit)
+
+/-- non-vacuity: in the two-level, four-frame annotation above frame 0 sees frame 1 (same deepest segment, depth 2)
+    and frame 2 (depth 1): a triple for the full and the reduced measure; the hypotheses of `tmeasure_self_of_split`
+    hold with `q, i, j, k = 0, 2, 1, 2`; a flat annotation has no triple. -/
+example :
+    HasTriple (lcaSpec [[(0, 4)], [(0, 2), (2, 4)]] 1 4) true 4 4
+    ∧ HasTriple (lcaSpec [[(0, 4)], [(0, 2), (2, 4)]] 1 4) false 4 4
+    ∧ framesOf 4 1 = 4 ∧ windowOf none 1 4 = 4
+    ∧ InWindow 4 4 0 2 ∧ InWindow 4 4 0 1
+    ∧ ([(0, 2), (2, 4)], 2) ∈ List.zipIdx [[((0 : Rat), (4 : Rat))], [(0, 2), (2, 4)]] 1
+    ∧ levelCovers 1 4 [(0, 2), (2, 4)] 0 1 = true ∧ levelCovers 1 4 [(0, 2), (2, 4)] 0 2 = false
+    ∧ ¬ HasTriple (lcaSpec [[(0, 2)]] 1 2) true 2 2 := by
+  refine ⟨⟨0, 2, 1, by decide +kernel⟩, ⟨0, 2, 1, by decide +kernel⟩, by decide +kernel, rfl, by decide,
+    by decide, by simp [List.zipIdx], by decide +kernel, by decide +kernel, ?_⟩
+  rintro ⟨q, i, j, hq, hi, hj, hr⟩
+  unfold InWindow at hi hj
+  have hij : i = j := by omega
+  subst hij
+  simp [rel] at hr
 
 end Mir.C02.Hierarchy
